@@ -66,7 +66,7 @@ def jsonable(steps):
         for k in ("create", "update"):
             if k in s and s[k].get("env") is not None:
                 spec = dict(s[k])
-                spec["env"] = [[a, b, c.decode(), d.decode()] for a, b, c, d in spec["env"]]
+                spec["env"] = [[a, b, c.decode("latin-1"), d.decode("latin-1")] for a, b, c, d in spec["env"]]
                 s[k] = spec
         out.append(s)
     return out
@@ -79,7 +79,7 @@ def unjson(steps):
         for k in ("create", "update"):
             if k in s and s[k].get("env") is not None:
                 spec = dict(s[k])
-                spec["env"] = [(a, b, c.encode(), d.encode()) for a, b, c, d in spec["env"]]
+                spec["env"] = [(a, b, c.encode("latin-1"), d.encode("latin-1")) for a, b, c, d in spec["env"]]
                 s[k] = spec
         out.append(s)
     return out
